@@ -1,11 +1,12 @@
-import UtilModel.Keyed.C07Own3
+import UtilModel.Keyed.C07Cancel
 /-!
 # keyed — the three invariants hold in every reachable state
 -/
 namespace UtilModel.Keyed
 open UtilModel
 
-theorem inv3_execOp (s : St) (op : Op) (h : Inv3 s) : Inv3 (execOp s op).1 := by
+theorem inv3_execOp (s : St) (op : Op) (h : Inv3 s) (hnz : ∀ r, op ≠ .setContext (some 0) r) :
+    Inv3 (execOp s op).1 := by
   cases op with
   | setKey k st => simp only [execOp]; rw [setKey_eq_syncS]; exact inv3_syncS st s k h
   | removeKey k => exact inv3_removeKey s k h
@@ -16,17 +17,25 @@ theorem inv3_execOp (s : St) (op : Op) (h : Inv3 s) : Inv3 (execOp s op).1 := by
   | getKey k => simp only [execOp]; split <;> exact h
   | getKeys => exact h
   | getKeysWithData => exact h
-  | resetRoutine k => exact inv3_resetKey s k h
-  | restartRoutine k => exact inv3_restartKey s k h
-  | resetAll =>
+  | resetRoutine k cs =>
+    simp only [execOp]
+    split
+    · exact inv3_resetKey s k h
+    · exact h
+  | restartRoutine k cs =>
+    simp only [execOp]
+    split
+    · exact inv3_restartKey s k h
+    · exact h
+  | resetAll cs =>
     simp only [execOp]
     rw [foldl_fst resetAllStep (fun s k => (resetKey s k).1) (fun _ _ => rfl)]
     exact foldl_inv _ inv3_resetKey _ _ h
-  | restartAll =>
+  | restartAll cs =>
     simp only [execOp]
     rw [foldl_fst restartAllStep (fun s k => (restartKey s k).1) (fun _ _ => rfl)]
     exact foldl_inv _ inv3_restartKey _ _ h
-  | setContext c restart => exact inv3_setContext s c restart h
+  | setContext c restart => exact inv3_setContext s c restart h (fun e => hnz restart (by rw [e]))
   | addKeyRef k =>
     simp only [execOp, addKeyRef]
     have := inv3_syncS true s k h
@@ -151,13 +160,18 @@ theorem inv3_recordInst (s : St) (g i : Nat) (y : G) (x : Inst) (h : Inv3 s)
       rw [if_neg hcur] at hK
       exact ⟨hK, h0.1, h0.2⟩
 
-theorem inv3_step (s s' : St) (e : Ev) (h : Inv3 s) (hs : step s e = some s') : Inv3 s' := by
+theorem inv3_step (s s' : St) (e : Ev) (h : Inv3 s) (hC : CInv s) (hs : step s e = some s') : Inv3 s' := by
   have hK := kinv_step s s' e h.k hs
   cases e with
   | nilnext k =>
     simp only [step] at hs
     split at hs
     · simp at hs; subst hs; exact inv3_congr (s := s) rfl rfl rfl h
+    · simp at hs
+  | cancelroot =>
+    simp only [step] at hs
+    split at hs
+    · simp at hs; subst hs; exact inv3_cancelroot s h
     · simp at hs
   | config c =>
     simp only [step] at hs
@@ -176,7 +190,12 @@ theorem inv3_step (s s' : St) (e : Ev) (h : Inv3 s) (hs : step s e = some s') : 
     split at hs
     · rename_i op hc
       simp at hs; subst hs
-      exact inv3_congr (s := (execOp s op).1) rfl rfl rfl (inv3_execOp s op h)
+      have hnz : ∀ r, op ≠ .setContext (some 0) r := by
+        intro r e
+        obtain ⟨c, _, hall⟩ := hC.call id op (pendingOp_mem s.calls id op hc)
+        rw [e] at hall; simp [Op.allowed] at hall
+      exact inv3_congr (s := (execOp (preOp s op) op).1) rfl rfl rfl
+        (inv3_execOp (preOp s op) op (inv3_preOp s op h) hnz)
     · simp at hs
   | ctor k d =>
     simp only [step] at hs
@@ -294,6 +313,7 @@ theorem inv3_init : Inv3 ({} : St) :=
   ⟨kinv_init, fun g y i x hy => by simp at hy, fun g y i x hy => by simp at hy⟩
 
 theorem inv3_reachable (s : St) (h : model.Reachable s) : Inv3 s :=
-  model.invariant Inv3 inv3_init (fun s e s' hi hs => inv3_step s s' e hi hs) s h
+  (model.invariant (fun s => Inv3 s ∧ CInv s) ⟨inv3_init, ⟨fun id op hi => (by cases hi)⟩⟩
+    (fun s e s' hi hs => ⟨inv3_step s s' e hi.1 hi.2 hs, cinv_step s s' e hi.2 hs⟩) s h).1
 
 end UtilModel.Keyed
